@@ -128,7 +128,7 @@ func checkC06(r *Run) {
 	for fn, callers := range map[string][]string{
 		"setUnstakingValidators":    {posK + "SetUnstakingValidator", posK + "deleteUnstakingValidator"},
 		"deleteUnstakingValidators": {posK + "deleteUnstakingValidator"},
-		"deleteUnstakingValidator":  {posK + "FinishUnstakingValidator"},
+		"deleteUnstakingValidator":  {posK + "FinishUnstakingValidator", posK + "ForceValidatorUnstake"},
 	} {
 		if f := r.fn(posK + fn); f != nil {
 			r.callersExactly("C06-R2", fn, r.edgesTo(f), callers)
